@@ -16,11 +16,11 @@ import (
 // into a truth table over its atomic conditions (a finite abstract evaluation of the branch
 // conditions — no repository code is run).
 type exprCtx struct {
-	c      *Ctx
-	fn     *ssa.Function
-	names  map[ssa.Value]string // override names for specific values (e.g. the converted operand)
-	depth  int
-	inline bool // render calls to module functions by name only (never descend)
+	c        *Ctx
+	fn       *ssa.Function
+	names    map[ssa.Value]string // override names for specific values (e.g. the converted operand)
+	depth    int
+	inline   bool // render calls to module functions by name only (never descend)
 	visiting map[ssa.Value]bool
 }
 
